@@ -45,9 +45,37 @@ func (w *writer) open() error {
 		return err
 	}
 
+	if err := startNewLine(file, w.target); err != nil {
+		_ = file.Close()
+		return err
+	}
+
 	w.file = file
 	w.writer = bufio.NewWriter(file)
 	return nil
+}
+
+// startNewLine makes sure that the next record starts on a line of its own. A
+// writer that was killed in the middle of a record leaves an unterminated last
+// line; a record appended to that line could not be read back.
+func startNewLine(file *os.File, path string) error {
+	info, err := os.Stat(path)
+	if err != nil || info.Size() == 0 {
+		return err
+	}
+	r, err := os.Open(path)
+	if err != nil {
+		return err
+	}
+	defer r.Close()
+	last := make([]byte, 1)
+	if _, err := r.ReadAt(last, info.Size()-1); err != nil {
+		return err
+	}
+	if last[0] != '\n' {
+		_, err = file.Write([]byte{'\n'})
+	}
+	return err
 }
 
 // write appends the status to the local file.
